@@ -18,15 +18,14 @@ RULE = ("vec.pardot cases, the executor re-run under `taskset -c <first k CPUs o
         "alternating above in the quick tier; both everywhere in the thorough tier), plus seeded "
         "longer lengths (201..3000); every case calls dot_f64 3 times (5 thorough), a share of them under spinning background "
         "threads; distinct = distinct executor line x affinity; non-trivial = length >= 1")
-TRUSTED = ["Coq 8.16.1 kernel + vm_compute (primitive floats: bit-exact IEEE binary64)", "Rust executor /verif/harness (kind vec.pardot), `taskset`",
+TRUSTED = ["Coq 8.16.1 kernel + vm_compute (primitive floats: bit-exact IEEE binary64)", "Flocq 4 (IEEE754.PrimFloat, BinarySingleNaN) and Coq's FloatAxioms for pardot_exact_float", "Rust executor /verif/harness (kind vec.pardot), `taskset`",
            "python driver: generators, exact Fraction reference, stream comparator (bitwise for this property)",
            "hand-written Gallina model coq/Model/ParDot.v tied to src/vector/vec_f64.rs:73-109 by bitwise differential execution under every affinity 1..16",
            "Rust's std::thread::scope borrowing rules (no data race / torn read), num_cpus::get() (follows the affinity mask: observed on every run)"]
 ASSUMPTIONS = ["the worker count is whatever num_cpus::get() returns in the process (1..16 reachable here through the affinity mask; cgroup quotas are not exercised)",
                "a value model cannot exhibit a data race: excluded by thread::scope's borrow checking (trusted)",
                "the sampled (length, k, data) triples are where model and code were compared bit for bit; the theorems are about the model"]
-UNPROVED = ["bit-identity with the sequential dot on exact-sum data is tied bitwise and searched (exact integer reference), not proved over IEEE floats (P3/Flocq not done)",
-            "accuracy 'up to reassociation' on arbitrary data: searched against the exact rational value with the standard gamma_(n+t) bound, not proved",
+UNPROVED = ["accuracy 'up to reassociation' on arbitrary data: searched against the exact rational value with the standard gamma_(n+t) bound, not proved",
             "absence of data races / torn reads: Rust's guarantee for safe code"]
 
 MANIFEST = dict(
@@ -35,12 +34,14 @@ MANIFEST = dict(
           "to the whole vector, including len < t and t not dividing len), pardot_closed_form (for any arithmetic, floats included, the result "
           "is the partial dots of the slices added from 0 in spawn order: a reassociation fixed by (len, t)), pardot_exact (over any ring the chunked sum equals the "
           "sequential dot), schedule_independent (for any arithmetic, floats included, and every completion order of the workers the "
-          "joined result is the same expression, hence bit-identical). Tie: the executor is re-run under taskset for every CPU count "
+          "joined result is the same expression, hence bit-identical), pardot_exact_float (IEEE binary64 via Flocq: on integer-valued "
+          "data with sum |v_i w_i| < 2^53 the result is bit-identical to the sequential dot, for every worker count). Tie: the executor is re-run under taskset for every CPU count "
           "1..16, reports num_cpus::get() in-process, and every result for every length 0..200 (plus longer ones) is compared "
           "bitwise with vm_compute of the float instance of the same model for that worker count, with the sequential dot, across "
           "repetitions, and (oracle) with an exact rational reference."),
-    note=("Scheduling itself (races, torn reads) is excluded by Rust's scoped-thread borrowing rules, not proved; float bit-identity on "
-          "exact-sum data and the reassociation error bound are tied/searched, not theorems."),
+    note=("Scheduling itself (races, torn reads) is excluded by Rust's scoped-thread borrowing rules, not proved; the reassociation "
+          "error bound on arbitrary data is searched against an exact rational reference, not a theorem; pardot_exact_float rests on the "
+          "primitive-float specification axioms of Coq's standard library (FloatAxioms) and the classical axioms of the Reals (Flocq)."),
     technique="Coq proof (lists, abstract ring, permutations) + bitwise model/implementation differential execution under every CPU affinity",
     design="7 (C16)")
 
